@@ -24,6 +24,7 @@ from fractions import Fraction as F
 
 from .. import core
 from .. import c02_stub as S
+from .. import c12_co as CO
 
 PROP_FILES = [core.THEORIES / "C12" / "Props.v"]
 PREAMBLE = ("From SV Require Import C12.Batch.\nFrom Coq Require Import List Arith QArith.\n"
@@ -336,11 +337,15 @@ def check(run: core.Run) -> int:
     mods = (torch, OmegaConf, predictors)
     thorough = run.tier == "thorough"
     n_td, n_si, n_bu = (1200, 400, 500) if thorough else (50, 15, 20)
-    cases = []
+    cases, co_cases = [], []
     d = core.CORPUS / "C12"
     if d.exists():
         for f in sorted(d.glob("*.json")):
-            cases.append(case_from_json(json.load(open(f))))
+            j = json.load(open(f))
+            if j.get("kind") == "centroid_only":
+                co_cases.append(CO.case_from_json(j))
+            else:
+                cases.append(case_from_json(j))
     for kind, n in (("topdown", n_td), ("single", n_si), ("bottomup", n_bu)):
         for _ in range(n):
             cases.append(gen_case(run.rng, len(cases), kind))
@@ -462,11 +467,22 @@ def check(run: core.Run) -> int:
             run.violation("failing-input", {"case": cj, "oracle": fails[:6], "correspondence": diffs[:3]})
         elif diffs:
             run.proof_broken.append(f"correspondence C12 model vs implementation, case {json.dumps(cj)[:800]}: {diffs[:2]}")
+    for _ in range(400 if thorough else 16):
+        co_cases.append(CO.gen_case(run.rng, len(cases) + len(co_cases)))
+    co_dis, co_stats = CO.evaluate(run, co_cases, mods, PREAMBLE)
+    run.obligation("correspondence: Batch.run CGt (centroid_only_stream, Coq; fed with the one-by-one centroids) == real "
+                   "TopDownPredictor without a centered-instance model (CentroidCrop(return_crops=False) + "
+                   "FindInstancePeaksGroundTruth) on every batch composition / order / batch size / max_instances: "
+                   "indices, padded centroid rows, padded instance rows", co_dis == 0, f"{co_dis} cases disagree")
+    for c in co_cases:
+        for k in ("kind", "refinement", "max_instances", "n_videos"):
+            key = f"{k}={c.get(k)}"
+            dist[key] = dist.get(key, 0) + 1
     run.obligation("correspondence: Batch.run (Coq, vm_compute; fed with the one-by-one detections) == real "
                    "TopDownPredictor on every batch composition / order / batch size / max_instances, and the NaN-padded "
                    "CentroidCrop table", disagreements == 0, f"{disagreements} cases disagree")
     run.coverage.update({
-        "input_distribution": dist, "disagreements": disagreements, "cases_with_equal_values_skipped_in_model_compare": ties,
+        "input_distribution": dist, "disagreements": disagreements, **co_stats, "cases_with_equal_values_skipped_in_model_compare": ties,
         "runs_per_case": ["one by one unlimited (reference)", "one by one", "one batch", "one batch permuted",
                           "other batch size"],
         "rule": "case = (model type, frames with 0..4 animals, output strides, max stride, refinement, max_instances, "
@@ -495,6 +511,8 @@ def replay(run: core.Run, path: str) -> int:
     from sleap_nn.inference import predictors
     mods = (torch, OmegaConf, predictors)
     rep = json.load(open(path))
+    if rep["case"].get("kind") == "centroid_only":
+        return CO.replay_case(CO.case_from_json(rep["case"]), mods)
     c = case_from_json(rep["case"])
     sc = build_scene(c)
     n = len(c["frames"])
